@@ -20,7 +20,7 @@ pub const ENTRY: Entry = Entry {
            maxima; thorough: all values). The bus traffic is decoded by an independent MIPI decoder according to the COLMOD the \
            initialisation *announced* (16 bpp: R5G6B5 most-significant byte first / one 16-bit word; 18 bpp: three bytes, six bits \
            left-aligned). Oracle: decoded (r,g,b) == drawn colour; repeat path words == stream path words; announced interface format \
-           matches the colour type; fill / stream / fill histories on SPI decode to the fill colour, also when one low-level operation of the stream call fails (every position). Non-trivial = every value except black.",
+           matches the colour type; fill / stream / fill histories on SPI decode to the fill colour, also when one low-level operation of the stream call fails (every position); solid fills of more than 65536 bus words on the real 8- and 16-bit parallel transports decode completely. Non-trivial = every value except black.",
     assumptions: &["independent decoder in ctl.rs; low two bits of 18-bpp bytes are ignored by the controller"],
     run,
 };
@@ -192,6 +192,41 @@ fn run(ctx: &Ctx) -> Part {
             acc
         })
         .reduce(Acc::new, Acc::merge);
+    // (d) solid fills of more than 65536 bus words on the real parallel transports (strobe-only repeat loops that
+    // count in blocks): every word of the burst decodes to the colour, none is lost
+    let big: Vec<(Transport, bool, u32, u32, u32)> = vec![
+        (Transport::Par8, false, 40000, 1, 0x0000),
+        (Transport::Par8, false, 33000, 2, 0x1818),
+        (Transport::Par8, false, 40000, 1, 0x1234),
+        (Transport::Par8, true, 30000, 1, 0x15555 & 0x3FFFF),
+        (Transport::Par16, false, 40000, 2, 0xFFFF),
+        (Transport::Par16, false, 65000, 2, 0x1234),
+    ];
+    let d = big
+        .par_iter()
+        .fold(Acc::new, |mut acc, &(tr, c666, w, h, colour)| {
+            acc.evaluations += 1;
+            acc.nontrivial += 1;
+            let cfg = Cfg::tiny(65535, 65535, c666, tr, (65535, 65535, 0, 0), 0);
+            let mut rig = Rig::new(&cfg);
+            let out = rig.apply(&Op::FillSolid { r: Rect { x: 3, y: 5, w, h }, c: colour });
+            rig.ctl.flush();
+            let want = packed_of(c666, colour);
+            let area = w as u64 * h as u64;
+            let samples = [(3u16, 5u16), ((3 + w - 1) as u16, 5), ((3 + w / 2) as u16, (5 + h - 1) as u16), ((3 + w - 1) as u16, (5 + h - 1) as u16)];
+            let wrong = samples.iter().find(|&&(x, y)| rig.ctl.mem.get(x, y) != want);
+            if !out.is_ok() || !rig.ctl.viols.is_empty() || rig.ctl.cur_pixels != area || wrong.is_some() {
+                acc.violation(Violation {
+                    prop: ctx.prop.clone(),
+                    sig: "encoding/large-repeat".into(),
+                    msg: format!("{tr:?}: fill_solid of {w}x{h} pixels of colour {colour:#x}: outcome {out:?}, {} pixels decoded after the memory-write-start (expected {area}), protocol {:?}, first wrong sample {wrong:?}", rig.ctl.cur_pixels, rig.ctl.viols.first()),
+                    case: json!({"variant": ctx.variant, "cfg": cfg, "faults": [], "history": [Op::FillSolid { r: Rect { x: 3, y: 5, w, h }, c: colour }], "checks": "all"}),
+                });
+            }
+            acc.count("large_parallel_fills", 1);
+            acc
+        })
+        .reduce(Acc::new, Acc::merge);
     // (c) fill / stream / fill histories on the real SPI transport: a solid fill must encode the colour
     // like a per-pixel stream also when the staging buffer was used by a stream in between (stream lengths
     // around multiples of the buffer capacity)
@@ -279,7 +314,7 @@ fn run(ctx: &Ctx) -> Part {
             acc
         })
         .reduce(Acc::new, Acc::merge);
-    let mut acc = a.merge(b).merge(c);
+    let mut acc = a.merge(b).merge(c).merge(d);
     acc.transitions = acc.evaluations * 3;
     acc.traces = acc.evaluations;
     acc.sample(json!({"cfg": jobs[0].0, "value": 0xF81F, "operations": ["set_pixel", "fill_solid 1x1", "fill_solid 3x1"]}));
